@@ -33,6 +33,12 @@ Structs == <<
   [id |-> "keyword-names", extra |-> << >>, props |-> <<
      P("type", SInt, TRUE, <<JInt(1)>>, ""),
      P("a-b", With(SStr, "default", JS(<<"d">>)), FALSE, <<JS(<<"x">>)>>, "") >>],
+  [id |-> "default-kinds", extra |-> ("Col" :> EnumS(<<JS(<<"r">>), JS(<<"g">>)>>)), props |-> <<
+     P("neg", With([type |-> "integer", format |-> "int32"], "default", JInt(-3)), FALSE, <<JInt(4)>>, ""),
+     P("txt", With(SStr, "default", JS(<<"d">>)), FALSE, <<JS(<<"x">>)>>, ""),
+     P("vec", With(SArr(SInt), "default", JArr(<<JInt(1), JInt(2)>>)), FALSE, <<JArr(<< >>)>>, ""),
+     P("col", With(SRef("Col"), "default", JS(<<"g">>)), FALSE, <<JS(<<"r">>)>>, ""),
+     P("u", With([type |-> "integer", format |-> "uint8"], "default", JInt(7)), FALSE, <<JInt(0)>>, "300u64") >>],
   [id |-> "all-default", extra |-> << >>, props |-> <<
      P("m", SMap(SInt), FALSE, <<JObj1("k", JInt(1))>>, ""),
      P("f", With(SBool, "default", JBool(TRUE)), FALSE, <<JBool(FALSE)>>, "") >>] >>
